@@ -130,6 +130,8 @@ def gen_num(e, d):
             return '%s[%s]' % (dd, r.choice(ks))
         return gen_num(e, d - 1)
     if c == 14:
+        if r.random() < 0.15:
+            return 'sum(%s)' % gen_num(e, d - 1)          # sum of a non-list is the value itself
         return 'sum(%s)' % gen_list(e, 'num', d - 1)
     if c == 15:
         return '%s(%s, %s)' % (r.choice(['min', 'max']), gen_num(e, d - 1), gen_num(e, d - 1))
@@ -304,6 +306,9 @@ def gen_list(e, et, d):
         body = lambda_body(e, {'v': src}, et, d - 1)
         return 'map(%s, v => %s)' % (gen_list(e, src, d - 1), body)
     if c == 7:
+        if et in ('num', 'str') and r.random() < 0.3:
+            vt = r.choice(['num', 'str'])
+            return 'map(%s, (k, v) => %s)' % (gen_dict(e, vt, d - 1), lambda_body(e, {'k': 'str', 'v': vt}, et, d - 1))
         body = lambda_body(e, {'v': et}, 'bool', d - 1)
         return 'filter(%s, v => %s)' % (gen_list(e, et, d - 1), body)
     if c == 8 and et in ('num', 'str'):
@@ -446,7 +451,7 @@ def gen_statement(e, d):
             if c == 12:
                 return '%s[%s] = %s' % (n, idx, gen(e, et, d - 1))
             if et == 'num':
-                return '%s[%s] %s %s' % (n, idx, r.choice(['+=', '-=', '*=']), gen_num(e, d - 1))
+                return '%s[%s] %s %s' % (n, idx, r.choice(['+=', '-=', '*=', '/=']), gen_num(e, d - 1))
             if et == 'str':
                 return '%s[%s] += %s' % (n, idx, gen_str(e, d - 1))
     if c in (14, 15):
@@ -462,14 +467,17 @@ def gen_statement(e, d):
                 return '%s[%s] = %s' % (n, k, gen(e, vt, d - 1))
             k = r.choice(e.keys[n])
             if vt == 'num':
-                return '%s[%s] %s %s' % (n, k, r.choice(['+=', '-=', '*=']), gen_num(e, d - 1))
+                return '%s[%s] %s %s' % (n, k, r.choice(['+=', '-=', '*=', '/=']), gen_num(e, d - 1))
             return '%s[%s] += %s' % (n, k, gen_str(e, d - 1)) if vt == 'str' else '%s[%s] = %s' % (n, k, gen(e, vt, d - 1))
     if c == 16:
         vs = [n for n in e.vars if isinstance(e.vars[n], tuple) and e.vars[n][0] == 'list' and n in e.lens]
         if vs:
             n = r.choice(vs)
-            x = r.randrange(5)
+            x = r.randrange(6)
             et = e.vars[n][1]
+            if x == 5:
+                e.lens.pop(n, None)          # whether the element is there is not tracked: the list is not addressed by index afterwards
+                return r.choice(['remove(%s, %s)', '%s.remove(%s)', '%s | remove(%s)']) % (n, gen(e, et, 0))
             if x == 0:
                 e.lens[n] += 1
                 return r.choice(['push(%s, %s)', '%s.push(%s)', '%s | push(%s)']) % (n, gen(e, et, d - 1))
@@ -493,6 +501,8 @@ def gen_statement(e, d):
             n = r.choice(vs)
             k = r.choice(e.keys[n])
             e.keys[n].remove(k)
+            if r.random() < 0.3 and k.startswith('"'):
+                return 'remove(%s, %s)' % (n, k)          # (remove takes the key as it is stored: string keys only)
             return 'del %s[%s]' % (n, k)
     if c in (19, 20, 21):
         # aliasing probes: store a container variable somewhere, then mutate one side; names afterwards reveal sharing
